@@ -605,6 +605,15 @@ def transform_fn(text, spec):
 
     # R11 exact textual rewrites (inside the body only); an absent source text is a lost anchor
     for frm, to in spec.get('rewrites', []):
+        if '{id}' in frm:
+            # `{id}` stands for one identifier (so that a renamed receiver does not lose the anchor)
+            rx = re.compile(re.escape(frm).replace(re.escape('{id}'), r'([A-Za-z_][A-Za-z0-9_]*)'))
+            hits = [mm for mm in rx.finditer(t) if sh.bopen < mm.start() < sh.bclose]
+            if not hits:
+                raise ExtractError('R11: text to rewrite not found: %s' % frm)
+            for mm in hits:
+                edits.append((mm.start(), mm.end(), to.replace('{id}', mm.group(1))))
+            continue
         pos = t.find(frm, sh.bopen)
         if pos < 0 or pos > sh.bclose:
             raise ExtractError('R11: text to rewrite not found: %s' % frm)
